@@ -29,6 +29,7 @@ type VLazy struct {
 	PreAccPresent, PreIdPresent map[byte]bool
 	PreState map[byte]IdentityState
 	PreInviter, PreDelegatee map[byte]*common.Address
+	PreInviterPtr map[byte]*Inviter
 	PreApproved map[byte]ApprovedIdentity
 	PreApPresent map[byte]bool
 }
@@ -40,7 +41,7 @@ func VLazyReset(names []string, epoch uint16, shape VShape) {
 		AccDone: map[byte]bool{}, IdDone: map[byte]bool{}, ApDone: map[byte]bool{},
 		PreBalance: map[byte]*big.Int{}, PreStake: map[byte]*big.Int{}, PreNonce: map[byte]uint32{}, PreEpoch: map[byte]uint16{},
 		PreAccPresent: map[byte]bool{}, PreIdPresent: map[byte]bool{}, PreState: map[byte]IdentityState{},
-		PreInviter: map[byte]*common.Address{}, PreDelegatee: map[byte]*common.Address{}, PreApproved: map[byte]ApprovedIdentity{}, PreApPresent: map[byte]bool{}}
+		PreInviter: map[byte]*common.Address{}, PreInviterPtr: map[byte]*Inviter{}, PreDelegatee: map[byte]*common.Address{}, PreApproved: map[byte]ApprovedIdentity{}, PreApPresent: map[byte]bool{}}
 }
 
 // VAddr: tracked address number i (1-based) - never the zero address.
@@ -54,20 +55,13 @@ func VAddr(i byte) common.Address {
 // vTracked returns the 1-based index of a tracked address (forking over the candidates when the
 // address is symbolic), or 0.
 func vTracked(a common.Address) byte {
-	if a[0] != 0xa0 {
-		return 0
-	}
+	// branch-free: the result is a symbolic byte; the case split happens where it is used
+	ok := a[0] == 0xa0
 	for i := 1; i < 19; i++ {
-		if a[i] != 0 {
-			return 0
-		}
+		ok = vAnd(ok, a[i] == 0)
 	}
-	for i := 1; i <= len(VL.Names); i++ {
-		if a[19] == byte(i) {
-			return byte(i)
-		}
-	}
-	return 0
+	ok = vAnd(ok, vAnd(a[19] >= 1, int(a[19]) <= len(VL.Names)))
+	return byte(vIte64(ok, uint64(a[19]), 0))
 }
 
 func vNonNeg(name string) *big.Int {
@@ -159,7 +153,7 @@ func cloneAddr(a *common.Address) *common.Address {
 }
 
 func (s *StateDB) vMaterializeAccount(addr common.Address) {
-	i := vTracked(addr)
+	i := byte(vConcretize(int(vTracked(addr)), 0, 8))
 	if i == 0 || VL.AccDone[i] {
 		return
 	}
@@ -188,7 +182,7 @@ func (s *StateDB) vMaterializeAccount(addr common.Address) {
 }
 
 func (s *StateDB) vMaterializeIdentity(addr common.Address) {
-	i := vTracked(addr)
+	i := byte(vConcretize(int(vTracked(addr)), 0, 8))
 	if i == 0 || VL.IdDone[i] {
 		return
 	}
@@ -205,7 +199,7 @@ func (s *StateDB) vMaterializeIdentity(addr common.Address) {
 		VL.PreStake[i] = new(big.Int).Set(stakeOrZero(&id))
 		VL.PreState[i] = id.State
 		VL.PreDelegatee[i] = id.delegatee
-		VL.PreInviter[i] = nil
+		VL.PreInviterPtr[i] = id.Inviter
 		s.VPutIdentity(VAddr(i), id)
 	}
 }
@@ -229,7 +223,7 @@ func VGetStateIdentity(s *StateDB, addr common.Address) *stateIdentity {
 //verif:override world (*idena-go/core/state.IdentityStateDB).getStateIdentity VGetApprovedIdentity
 func VGetApprovedIdentity(s *IdentityStateDB, addr common.Address) *stateApprovedIdentity {
 	if VL.On {
-		if i := vTracked(addr); i != 0 && !VL.ApDone[i] {
+		if i := byte(vConcretize(int(vTracked(addr)), 0, 8)); i != 0 && !VL.ApDone[i] {
 			VL.ApDone[i] = true
 			if _, live := s.stateIdentities[VAddr(i)]; !live {
 				n := VL.Names[i-1]
@@ -254,4 +248,15 @@ func (s *StateDB) VTouchAll() {
 		s.vMaterializeAccount(VAddr(byte(i)))
 		s.vMaterializeIdentity(VAddr(byte(i)))
 	}
+}
+
+// PreInviterIs / PreDelegateeIs: relationships in the pre-state (false when the identity was absent).
+func (l *VLazy) PreInviterIs(k byte, a common.Address) bool {
+	p := l.PreInviterPtr[k]
+	return p != nil && p.Address == a
+}
+
+func (l *VLazy) PreDelegateeIs(k byte, a common.Address) bool {
+	p := l.PreDelegatee[k]
+	return p != nil && *p == a
 }
